@@ -721,6 +721,25 @@ func sameExpr(a, b ssa.Value) bool {
 	case *ssa.Const:
 		y, ok := b.(*ssa.Const)
 		return ok && x.Value != nil && y.Value != nil && x.Value.ExactString() == y.Value.ExactString()
+	case *ssa.BinOp:
+		y, ok := b.(*ssa.BinOp)
+		if !ok || x.Op != y.Op {
+			return false
+		}
+		if sameExpr(x.X, y.X) && sameExpr(x.Y, y.Y) {
+			return true
+		}
+		if x.Op == token.ADD || x.Op == token.MUL {
+			return sameExpr(x.X, y.Y) && sameExpr(x.Y, y.X)
+		}
+	case *ssa.Call:
+		// len(x) evaluated twice
+		y, ok := b.(*ssa.Call)
+		if ok {
+			if lx, ly := lenOf(x), lenOf(y); lx != nil && ly != nil {
+				return sameExpr(lx, ly)
+			}
+		}
 	}
 	return false
 }
